@@ -24,6 +24,7 @@ import RsomeV.Drv.AffTri
 import RsomeV.Drv.Lmi
 import RsomeV.Drv.DroModel
 import RsomeV.Drv.Assign
+import RsomeV.Drv.RobustStray
 open Lean
 namespace RsomeV.Drv
 /-- every operation of the line protocol -/
@@ -32,6 +33,7 @@ def dispatch (op : String) (j : Json) : Except String Json :=
   | "lp_dual" => opLpDual j
   | "conic_dual" => opConicDual j
   | "le_to_rc" => opLeToRc j
+  | "le_to_rc_k" => opLeToRcK j
   | "evt_seq" => opEvtSeq j
   | "comb_set" => opCombSet j
   | "rule_cols" => opRuleCols j
